@@ -383,6 +383,7 @@ func runJob(h *Harness, params []int, tier string) *JobResult {
 		}
 	}
 	// replays
+	vmRefuted := map[string]vmRefutation{}
 	for _, ob := range res.Obligations {
 		switch {
 		case ob.Kind == "require" && ob.Verdict == "unsat" && ob.Unknown == 0:
@@ -422,6 +423,17 @@ func runJob(h *Harness, params []int, tier string) *JobResult {
 				ob.Replay = "diverges"
 				ob.Trace = r.replayLog
 			}
+			if errMsg == "" { // assertions the real VM refutes in this concrete run, whatever the solver said about them
+				for id := range r.replayFails {
+					if _, seen := vmRefuted[id]; !seen {
+						full := map[string]string{}
+						for k, v := range ob.Model {
+							full[k] = v
+						}
+						vmRefuted[id] = vmRefutation{model: full, trace: r.replayLog, via: ob.ID}
+					}
+				}
+			}
 			if tier == "witness" {
 				ob.FullModel = ob.Model
 			}
@@ -449,8 +461,28 @@ func runJob(h *Harness, params []int, tier string) *JobResult {
 			}
 		}
 	}
+	// An assertion that fails on the real VM during the replay of a witness is a reproduced counterexample
+	// even if the solver discharged it (then the encoding is wrong somewhere) or reported other models. It
+	// used to be mentioned in the witness's status only, where nothing looked at it.
+	for _, ob := range res.Obligations {
+		rf, ok := vmRefuted[ob.ID]
+		if !ok || (ob.Kind != "assert" && ob.Kind != "known") || ob.Replay == "reproduced" {
+			continue
+		}
+		ob.Notes = append(ob.Notes, fmt.Sprintf("solver verdict was %q; the assertion fails on the real VM in the replay of the witness of %s: the encoding diverges from the VM here, or the engine lost this path", ob.Verdict, rf.via))
+		ob.Verdict = "sat"
+		ob.Replay = "reproduced"
+		ob.CexUsed = rf.model
+		ob.Trace = rf.trace
+	}
 	res.WallMs = time.Since(t0).Milliseconds()
 	return res
+}
+
+type vmRefutation struct {
+	model map[string]string
+	trace []string
+	via   string
 }
 
 // trimModel drops helper variables (fresh digest/entry-script bytes) from a model kept in the evidence.
